@@ -13,6 +13,7 @@ import (
 	"os"
 	"reflect"
 	"strings"
+	"time"
 	"unsafe"
 )
 
@@ -177,6 +178,28 @@ func UFBool(name string, args ...string) bool {
 func UFU64(name string, args ...uint64) uint64 { return next("uf:"+name, "u64").U }
 
 func Concrete(x int) int { return x }
+
+// ClockReadings returns, in native replay, the unix seconds of the symbolic clock readings of the
+// replayed model (the real code reads the real clock natively, so a harness whose counterexample
+// depends on where an instant lies between two readings uses them to place that instant
+// relative to the real clock). Under the engine it returns nil.
+func ClockReadings() []int64 {
+	var out []int64
+	if cur == nil {
+		return nil
+	}
+	for _, v := range cur.Nondet {
+		if strings.HasPrefix(v.Tag, "time.Now") {
+			out = append(out, int64(v.U)-62135596800)
+		}
+	}
+	return out
+}
+
+// FireTimers lets every armed time.AfterFunc timer fire. Under the engine timers never fire on
+// their own: the armed, unstopped callbacks run here, in the order they were armed. Natively the
+// real timers run: this waits d, which the harness chooses longer than any timer it armed.
+func FireTimers(d time.Duration) { time.Sleep(d) }
 
 // SetUnexported stores val into the (possibly unexported, possibly promoted) field `field` of the
 // struct ptr points to. It exists to put a dependency's zero-value object into a state its own
